@@ -285,6 +285,28 @@ Print corr_bad. Print prop_bad. Print refused. Print ncorr_bad. Print wiring_ok.
     if wiring is not None and wiring_ok == "false":
         chk.fail("wiring.json", {"what": "newrelic.NewClient does not install a limiter of 100 permits with a 45 s time-out",
                                  "observed": wiring, "scenarios": []}, sig="c18-wiring")
+    # ---- a time-out that coincides with a freed slot (one processor, the holder's goroutine keeps it busy)
+    if not replay:
+        coutp = os.path.join(vlib.BUILD, "c18_coincide_out.json")
+        if os.path.exists(coutp):
+            os.remove(coutp)
+        crc, clog = vlib.run_go_test(binary, "TestVerifC18Coincide",
+                                     {"VERIF_OUT": coutp, "VERIF_TRIALS": "40" if chk.tier == "quick" else "400"}, timeout=300)
+        if crc != 0 or not os.path.exists(coutp):
+            chk.fail("coincide_run.txt", "TestVerifC18Coincide failed:\n" + clog[-3000:], no_input=True)
+        else:
+            co = json.load(open(coutp))
+            chk.cov.setdefault("stages", {})["coincide"] = co
+            chk.count_case(["coincide", co["trials"], co["probe_denied"]])
+            if co["probe_denied"] > 0:
+                chk.fail("coincide.json", {"what": "after a waiter was handed a slot at the moment its time-out expired, the idle limiter "
+                                                   "refuses a new request: a unit of capacity was lost (Limiter.v: permits + running = max "
+                                                   "in every reachable state; here permits < max with nothing running)",
+                                           "observed": co, "replay": "go test -run TestVerifC18Coincide (harness/go/collector/zz_verif_c18_test.go): "
+                                           "max 1, time-out 25 ms, GOMAXPROCS 1, the holder ends 0.15-1.5 ms before the waiter's deadline and "
+                                           "keeps the processor for 3 ms"}, sig="c18-coincide-slot-lost")
+            elif co["waiter_got_slot"] == 0 or co["waiter_timed_out"] == 0:
+                chk.notes.append("coincidence stage: the two outcomes were not both seen (%s)" % co)
     broken = []
     if not st["build_ok"]:
         broken.append("theorems of PropC18.v no longer check:\n" + st["log"][-3000:])
